@@ -117,7 +117,7 @@ func genStopTimeUpdates(c *Ctx, p string, salt int, rich bool) []*gtfsrt.TripUpd
 		u.StopId = optStr(c, q+"stop_id", true, fmt.Sprintf("S%d", s), "")
 		u.Arrival = genEvent(c, q+"arrival.", s*2, rich, rich)
 		u.Departure = genEvent(c, q+"departure.", s*2+1, rich, rich)
-		if k := optIdx(c, q+"schedule_relationship", rich, 3); k >= 0 {
+		if k := optIdx(c, q+"schedule_relationship", rich, 4); k >= 0 {
 			v := []gtfsrt.TripUpdate_StopTimeUpdate_ScheduleRelationship{gtfsrt.TripUpdate_StopTimeUpdate_SKIPPED, gtfsrt.TripUpdate_StopTimeUpdate_SCHEDULED, gtfsrt.TripUpdate_StopTimeUpdate_NO_DATA, gtfsrt.TripUpdate_StopTimeUpdate_UNSCHEDULED}[k]
 			u.ScheduleRelationship = &v
 		}
